@@ -585,8 +585,16 @@ class OptimizeVI:
                 remove_axes=None,
                 unflatten=None,
             )
+            # The gradient w.r.t. the constants is zero (not their position)
+            insert_zeros = partial_insert_and_remove(
+                lambda x: x,
+                insert_axes=(insert_axes,),
+                flat_fill=(zeros_like(primals_frozen),),
+                remove_axes=None,
+                unflatten=None,
+            )
             kl_opt_state = kl_opt_state._replace(
-                x=insert(kl_opt_state.x), jac=insert(kl_opt_state.jac)
+                x=insert(kl_opt_state.x), jac=insert_zeros(kl_opt_state.jac)
             )
         return kl_opt_state
 
